@@ -179,6 +179,11 @@ PROPS["C18"]["tasks"].append("json_extends")
 PROPS["C10"]["tasks"] += SKELETON
 PROPS["C05"]["tasks"] += RUNNER_ELEMS
 PROPS["C06"]["tasks"] += SKELETON + ["SequentialRunner._generate_sessions[session]"]
+PROPS["C10"]["tasks"] += ["Logger.write", "Log.read_and_write", "Logger._process", "Logger.process"]
+PROPS["C10"]["not_decided"] = []
+PROPS["C04"]["tasks"] += ["Order.__init__", "SequentialRunner._collect_orders_from_normal_agents[Order]", "SequentialRunner._collect_orders_from_normal_agents[Cancel]",
+                          "SequentialRunner._handle_orders[hft-phase,Order]", "SequentialRunner._handle_orders[hft-phase,Cancel]"]
+PROPS["C04"]["not_decided"] = []
 for _p in ("C02", "C04"):
     PROPS[_p]["tasks"].append("OrderBook.__init__ establishes BookInv")
 for _p in ("C04", "C06", "C08"):
